@@ -1,4 +1,215 @@
-// engine K harnesses for module hook 'circular' (included under cfg(kani) by /repo)
+// engine K — helpers/buffers/circular.rs (property C14: the ring buffer is a FIFO byte queue)
+//
+// The unbounded proof of the cursor functions is engine V (verus/circular_cursors). The units here are the
+// bounded stand-ins for what Verus cannot digest (`take`, `Next::write`, `range`: RangeInclusive, slices, Vec)
+// and a cross-check / witness source for the cursor contracts.  Abstract state: the queue of `abs_len` bytes
+// starting at `mask(read)`.
+use super::*;
+
+impl CircularBuf {
+    fn abs_len(&self) -> usize {
+        let cap = self.data.len();
+        if self.write >= self.read { self.write - self.read } else { 2 * cap - self.read + self.write }
+    }
+    /// representation invariant
+    fn wf(&self) -> bool {
+        let cap = self.data.len();
+        cap > 0
+            && self.write_size > 0
+            && self.read_size > 0
+            && cap % self.write_size == 0
+            && self.read_size % self.write_size == 0
+            && self.read_size <= cap
+            && self.read < 2 * cap
+            && self.write < 2 * cap
+            && self.read % self.write_size == 0
+            && self.write % self.write_size == 0
+            && self.abs_len() <= cap
+    }
+}
+
+const MAXCAP: usize = 8;
+
+fn any_buf(max_cap: usize, contents: &[u8; MAXCAP]) -> CircularBuf {
+    let cap: usize = kani::any();
+    kani::assume(cap > 0 && cap <= max_cap);
+    let buf = CircularBuf {
+        write: kani::any(),
+        read: kani::any(),
+        read_size: kani::any(),
+        write_size: kani::any(),
+        closed: kani::any(),
+        data: contents[..cap].to_vec(),
+    };
+    kani::assume(buf.wf());
+    buf
+}
+
+/// cursor contracts (cross-check of the Verus unit on the unsubstituted code), capacity <= 64
+#[kani::proof]
+#[kani::unwind(3)]
+fn c14_cursor_contracts_k() {
+    let cap: usize = kani::any();
+    kani::assume(cap > 0 && cap <= 64);
+    let buf = CircularBuf {
+        write: kani::any(),
+        read: kani::any(),
+        read_size: kani::any(),
+        write_size: kani::any(),
+        closed: kani::any(),
+        data: vec![0u8; cap],
+    };
+    kani::assume(buf.wf());
+    let n = buf.abs_len();
+    kani::cover!(buf.write < buf.read);
+    kani::cover!(n == cap);
+    kani::cover!(n == 0 && buf.read != 0);
+    assert!(buf.len() == n);
+    assert!(buf.capacity() == cap);
+    assert!(buf.is_empty() == (n == 0));
+    assert!(buf.remaining() == cap - n);
+    assert!(buf.can_write() == (!buf.closed && cap - n >= buf.write_size));
+    assert!(buf.can_read() == ((buf.closed && n > 0) || n >= buf.read_size));
+    assert!(buf.is_closed() == buf.closed);
+    let d: usize = kani::any();
+    kani::assume(d <= cap);
+    assert!(buf.inc(buf.write, d) == (buf.write + d) % (2 * cap));
+    assert!(buf.mask(buf.read) == buf.read % cap && buf.wrap(buf.read) == buf.read);
+}
+
+/// `Next::write`: exactly the ws bytes at mask(write) are overwritten with the message, everything else is
+/// unchanged (frame), the queue grows by ws, the invariant is kept.
+#[kani::proof]
+#[kani::unwind(10)]
+fn c14_write_contract() {
+    let contents: [u8; MAXCAP] = kani::any();
+    let mut buf = any_buf(MAXCAP, &contents);
+    kani::assume(buf.write_size <= 2);
+    kani::assume(buf.can_write());
+    let (cap, ws, w0, r0, n0) = (buf.data.len(), buf.write_size, buf.write, buf.read, buf.abs_len());
+    let msg: [u8; 2] = kani::any();
+    kani::cover!(ws == 2 && w0 >= cap);
+    kani::cover!(ws == 1 && n0 == cap - 1);
+    buf.next().write(&msg[..ws]);
+    assert!(buf.wf());
+    assert!(buf.read == r0 && !buf.closed);
+    assert!(buf.abs_len() == n0 + ws);
+    assert!(buf.write == (w0 + ws) % (2 * cap));
+    let i: usize = kani::any();
+    kani::assume(i < cap);
+    let start = w0 % cap;
+    if i >= start && i < start + ws {
+        assert!(buf.data[i] == msg[i - start]);
+    } else {
+        assert!(buf.data[i] == contents[i]);
+    }
+}
+
+/// `take`: returns nothing (state unchanged) when !can_read; otherwise min(rs, abs_len) bytes in queue order
+/// starting at mask(read), advances `read` by that amount, leaves data / write untouched, keeps the invariant.
+#[kani::proof]
+#[kani::unwind(10)]
+fn c14_take_contract() {
+    let contents: [u8; MAXCAP] = kani::any();
+    let mut buf = any_buf(MAXCAP, &contents);
+    let (cap, rs, w0, r0, n0, closed) = (buf.data.len(), buf.read_size, buf.write, buf.read, buf.abs_len(), buf.closed);
+    let readable = (closed && n0 > 0) || n0 >= rs;
+    kani::cover!(readable && r0 % cap + rs > cap);
+    kani::cover!(readable && closed && n0 < rs);
+    kani::cover!(!readable && n0 > 0);
+    let out = buf.take();
+    assert!(buf.wf());
+    assert!(buf.write == w0 && buf.closed == closed);
+    let k: usize = kani::any();
+    kani::assume(k < cap);
+    assert!(buf.data[k] == contents[k]);
+    if !readable {
+        assert!(out.is_empty() && buf.read == r0);
+    } else {
+        let len = if rs < n0 { rs } else { n0 };
+        assert!(out.len() == len && len > 0);
+        assert!(closed || len == rs);
+        assert!(buf.read == (r0 + len) % (2 * cap));
+        assert!(buf.abs_len() == n0 - len);
+        let i: usize = kani::any();
+        kani::assume(i < len);
+        assert!(out[i] == contents[(r0 + i) % cap]);
+    }
+}
+
+/// `close` only sets the flag
+#[kani::proof]
+#[kani::unwind(10)]
+fn c14_close_contract() {
+    let contents: [u8; MAXCAP] = kani::any();
+    let mut buf = any_buf(MAXCAP, &contents);
+    kani::assume(!buf.closed);
+    let (w0, r0) = (buf.write, buf.read);
+    kani::cover!(true);
+    buf.close();
+    assert!(buf.closed && buf.write == w0 && buf.read == r0 && buf.wf());
+    assert!(!buf.can_write());
+}
+
+/// `new` establishes the invariant with an empty queue
+#[kani::proof]
+#[kani::unwind(10)]
+fn c14_new_contract() {
+    let cap: usize = kani::any();
+    let ws: usize = kani::any();
+    let rs: usize = kani::any();
+    kani::assume(cap > 0 && cap <= MAXCAP && ws > 0 && rs > 0 && cap % ws == 0 && rs % ws == 0 && rs <= cap);
+    kani::cover!(cap == 6 && ws == 2 && rs == 6);
+    let buf = CircularBuf::new(cap, ws, rs);
+    assert!(buf.wf() && buf.abs_len() == 0 && !buf.closed && buf.capacity() == cap);
+}
+
+/// FIFO: from a fresh buffer, any sequence of <= 4 operations (write / take / close) returns exactly the bytes
+/// of a reference queue, in order, in read_size chunks (remainder after close).
+#[kani::proof]
+#[kani::unwind(10)]
+fn c14_fifo_against_reference() {
+    let cap: usize = kani::any();
+    let ws: usize = kani::any();
+    let rs: usize = kani::any();
+    kani::assume(cap > 0 && cap <= 4 && ws > 0 && ws <= 2 && rs > 0 && cap % ws == 0 && rs % ws == 0 && rs <= cap);
+    let mut buf = CircularBuf::new(cap, ws, rs);
+    // reference queue: bytes pushed so far / popped so far
+    let mut model = [0u8; 8];
+    let (mut pushed, mut popped) = (0usize, 0usize);
+    let mut next_byte = 1u8;
+    for _ in 0..4 {
+        let op: u8 = kani::any();
+        if op == 0 && buf.can_write() {
+            let msg = [next_byte, next_byte.wrapping_add(1)];
+            model[pushed] = msg[0];
+            if ws == 2 {
+                model[pushed + 1] = msg[1];
+            }
+            pushed += ws;
+            next_byte = next_byte.wrapping_add(2);
+            buf.next().write(&msg[..ws]);
+        } else if op == 1 {
+            let out = buf.take();
+            let avail = pushed - popped;
+            if avail >= rs || (buf.is_closed() && avail > 0) {
+                let len = if rs < avail { rs } else { avail };
+                assert!(out.len() == len);
+                let i: usize = kani::any();
+                kani::assume(i < len);
+                assert!(out[i] == model[popped + i]);
+                popped += len;
+            } else {
+                assert!(out.is_empty());
+            }
+        } else if op == 2 && !buf.is_closed() {
+            buf.close();
+        }
+        assert!(buf.len() == pushed - popped);
+    }
+    kani::cover!(popped >= 2 && buf.is_closed());
+    kani::cover!(pushed == 6);
+}
 
 #[cfg(test)]
 include!(concat!(env!("IPA_VERIF_DIR"), "/.build/playback/circular.rs"));
